@@ -63,7 +63,7 @@ def special_values(draw, spec, cfg, parent="root"):
     k = spec["k"]
     if k == "string":
         if draw(st.integers(0, 5)) == 0:
-            return {"$cap": draw(st.sampled_from([255, 256, 257, 300, 4096]) if cfg.is_big and draw(st.integers(0, 1)) else st.integers(1, 24))}
+            return {"$cap": draw(st.sampled_from([255, 256, 257, 300]) if cfg.is_big and draw(st.integers(0, 1)) else st.integers(1, 24))}
         return draw(tg.texts(cfg))
     if k == "scalar":
         return draw(tg.scalar_values(spec["t"]))
@@ -98,8 +98,8 @@ def special_values(draw, spec, cfg, parent="root"):
 
 
 @st.composite
-def cases(draw, tier):
-    cfg = tg.Cfg(tier, big_weight=8)
+def cases(draw, tier, huge=False):
+    cfg = tg.Cfg(tier, big_weight=8, allow_huge=huge)
     spec = draw(tg.type_specs(cfg))
     value = special_values(draw, spec, cfg)
     forms = draw(st.lists(st.integers(0, 11), max_size=12))
@@ -109,7 +109,7 @@ def cases(draw, tier):
 
 
 def strategy(tier):
-    return cases(tier)
+    return cases(tier, huge=True)
 
 
 def strip_special(spec, value):
